@@ -16,6 +16,9 @@ CHECKS = {
  'C19': dict(cat='exploration', tech='sanitizer-instrumented fuzzing (ASan+UBSan build, valgrind sample) with mutation, truncation, odd-shape and deep-nesting workloads; strace read/write fault injection',
              text='Runs the ASan+UBSan build of the current tree on tens of thousands (thorough: millions) of mutated, truncated, odd-shaped, deeply nested and very long inputs plus option sets and I/O faults; any signal, sanitizer report, assertion text, status outside {0,1,2}, CPU-budget overrun (re-run with 5x before a verdict) or runaway output is a violation, de-duplicated by failure site and reduced by token-level delta debugging.',
              note='memory-safe = no ASan/UBSan/memcheck report on the executions driven; termination is decided as bounded progress under a CPU budget proportional to input size; malloc failure is not injected.', ref='4/C19'),
+ 'C20': dict(cat='exploration', tech='perturbation differential (environment, locale, allocator fill/tunables, ASLR, cwd, stdin/pipe/path, -o, argv[0]) with byte comparison; valgrind memcheck; strace and LD_PRELOAD audits',
+             text='Each input (suite, corpus, generated valid, odd-shaped and mutated invalid programs) is compiled under 21 perturbed conditions and stdout, stderr and status are byte-compared with the baseline; valgrind reports uses of uninitialised values; syscall and libc-call audits look for time, randomness, locale and stray file access.',
+             note='Only C/POSIX/C.UTF-8 locales exist in the image: locale dependence is observable through the setlocale interposer only. Diagnostics may differ in the spelled input name and argv[0].', ref='4/C20'),
  'C03': dict(cat='exploration', tech='online validator (re-implemented QBE parse/typecheck/SSA rules) over every accepted output; strace write-fault injection',
              text='Every module printed with exit status 0 (suite, corpus, generated, odd-shaped and mutated inputs, cproc\'s own sources; three targets) is parsed and checked by an independent IL validator; output faults are injected at the k-th write.',
              note='Trusted: vf.ilcheck (silent on the 159 stored .qbe files and the self-compiled IL); data sizes vs C objects are judged by C06/C07.', ref='4/C03'),
